@@ -9,7 +9,10 @@ from vlib.runner import hyp
 
 PROPERTY = 'C16'
 LEVEL = 'exploration'
-RULE = ('A history = 1-6 (quick) / 1-10 (thorough) calls over {connect, '
+RULE = ('Also (free-running threads): disconnect() while the networking '
+        'thread is blocked inside a length prefix / a frame body of a '
+        'stalled server: the thread ends, the object connects again. '
+'A history = 1-6 (quick) / 1-10 (thorough) calls over {connect, '
         'status, disconnect, disconnect(immediate)} issued by one or two '
         'user threads, an optional behaviour (reconnect from a play '
         'listener, reconnect from an exception handler, disconnect-then-'
